@@ -300,6 +300,8 @@ def save_load(a):
     old = os.getcwd()
     os.chdir(cwd)
     try:
+        if a.get('before') is not None:     # the folder already holds ANOTHER dataset (other attributes): save must replace it
+            sk_load.save(folder, _build_value(a['before']))
         sk_load.save(folder, data)
         if a.get('twice'):      # saving again over an existing bundle must replace it
             sk_load.save(folder, data)
